@@ -35,6 +35,29 @@ func (st *c07Stack) direct() afero.Fs {
 	return st.src
 }
 
+// spyFs records the name arguments of the read calls it receives.
+type spyFs struct {
+	afero.Fs
+	seen []string
+}
+
+func (s *spyFs) Stat(name string) (os.FileInfo, error) {
+	s.seen = append(s.seen, name)
+	return s.Fs.Stat(name)
+}
+func (s *spyFs) Open(name string) (afero.File, error) {
+	s.seen = append(s.seen, name)
+	return s.Fs.Open(name)
+}
+func (s *spyFs) OpenFile(name string, flag int, perm os.FileMode) (afero.File, error) {
+	s.seen = append(s.seen, name)
+	return s.Fs.OpenFile(name, flag, perm)
+}
+func (s *spyFs) LstatIfPossible(name string) (os.FileInfo, bool, error) {
+	s.seen = append(s.seen, name)
+	return s.Fs.(afero.Lstater).LstatIfPossible(name)
+}
+
 func c07New(name string) *c07Stack {
 	switch name {
 	case "ro-mem":
@@ -59,6 +82,10 @@ func c07New(name string) *c07Stack {
 	case "ro-mem-reopen": // the all-memory stack again, for lines the model does not have (File.Open on a closed handle)
 		m := afero.NewMemMapFs()
 		return &c07Stack{afero.NewReadOnlyFs(m), m, "/", func() {}, nil}
+	case "ro-spy": // the wrapped filesystem records the names it is given: a read must hand the caller's name on as it is
+		m := afero.NewMemMapFs()
+		sp := &spyFs{Fs: m}
+		return &c07Stack{afero.NewReadOnlyFs(sp), m, "/", func() {}, sp}
 	case "ro-cache":
 		// the wrapped filesystem is a CacheOnReadFs whose cache is empty: set-up lines write the base directly, so
 		// nothing is cached when the wrapper is first used (its Open and OpenFile(O_RDONLY) take different routes)
@@ -130,14 +157,25 @@ func c07RunImpl(c corr.Case) []string {
 				return "err:inval"
 			}
 			before := FullSnapshot(st.src, st.root)
+			spy, _ := st.cmp.(*spyFs)
+			if spy != nil {
+				spy.seen = nil
+			}
 			res := r.Exec(t)
 			note := ""
+			if spy != nil && (t[0] == "stat" || t[0] == "lstat" || t[0] == "open" || t[0] == "openfile") {
+				for _, n := range spy.seen {
+					if n != string(corr.UnHex(t[1])) {
+						note += fmt.Sprintf(" #NOT-TRANSPARENT(the wrapped filesystem was asked for %q)", n)
+					}
+				}
+			}
 			if after := FullSnapshot(st.src, st.root); after != before {
 				note += " #FROZEN-VIOLATED"
 			}
 			// transparency of Fs-level reads
 			switch t[0] {
-			case "stat":
+			case "stat", "lstat":
 				fi, err := st.direct().Stat(string(corr.UnHex(t[1])))
 				want := "err:" + ErrClass(err)
 				if err == nil {
@@ -213,7 +251,7 @@ func c07Oracle(c corr.Case, impl []string) (string, int) {
 				return "openfile requesting write access did not fail with a permission error: " + impl[i], i
 			}
 		}
-		if (t[0] == "h.write" || t[0] == "h.writestring" || t[0] == "h.writeat") && !strings.Contains(impl[i], "#SRC") && strings.HasPrefix(impl[i], "n=") && !strings.HasPrefix(impl[i], "n=0 ") {
+		if (t[0] == "h.write" || t[0] == "h.writestring" || t[0] == "h.readfrom" || t[0] == "h.writeat") && !strings.Contains(impl[i], "#SRC") && strings.HasPrefix(impl[i], "n=") && !strings.HasPrefix(impl[i], "n=0 ") {
 			return "a write through a handle returned by the wrapper reported bytes written: " + impl[i], i
 		}
 	}
@@ -264,10 +302,10 @@ func c07SetupOpen() []string {
 
 func c07HandleOps(hi int) []string {
 	return []string{
-		fmt.Sprintf("h.read %d 3", hi), fmt.Sprintf("h.write %d 5858", hi), fmt.Sprintf("h.writeat %d 5959 1", hi),
+		fmt.Sprintf("h.read %d 3", hi), fmt.Sprintf("h.write %d 5858", hi), fmt.Sprintf("h.writeat %d 5959 1", hi), fmt.Sprintf("h.readfrom %d 4652", hi),
 		fmt.Sprintf("h.trunc %d 0", hi), fmt.Sprintf("h.trunc %d 9", hi), fmt.Sprintf("h.seek %d 1 0", hi), fmt.Sprintf("h.readat %d 4 0", hi),
 		fmt.Sprintf("h.stat %d", hi), fmt.Sprintf("h.readdirnames %d -1", hi), fmt.Sprintf("h.sync %d", hi), fmt.Sprintf("h.close %d", hi),
-		fmt.Sprintf("h.write %d 5a", hi), fmt.Sprintf("h.writestring %d 5753", hi),
+		fmt.Sprintf("h.write %d 5a", hi), fmt.Sprintf("h.writestring %d 5753", hi), fmt.Sprintf("h.readfrom %d 5246", hi),
 	}
 }
 
@@ -307,6 +345,16 @@ func c07Exhaustive(tier string) []corr.Case {
 			}
 		}
 	}
+	// reads with names that are not clean: the wrapper hands them on as they are (below a BasePathFs a name that
+	// climbs out of the root does not exist, whatever it cleans to)
+	for _, st := range []string{"ro-bp", "ro-spy", "ro-mem", "ro-os"} {
+		l := append([]string{"case " + st}, c07Setup()...)
+		for _, n := range []string{"/../d/file", "/d/../../d/file", "/d/file/", "/d/file/.", "", ".", "/d/./file", "//d//file", "/d/sub/..", "/../d", "d/file", "../d/file"} {
+			l = append(l, "stat "+h(n), "lstat "+h(n), "open "+h(n), fmt.Sprintf("openfile %s 0 420", h(n)))
+		}
+		l = append(l, "snapshot")
+		cases = append(cases, corr.Case{Lines: l})
+	}
 	// a CacheOnReadFs as the wrapped filesystem, nothing cached yet: Open and read-only OpenFile of files and directories
 	for _, tg := range []string{"/d", "/d/file", "/d/sub", "/top", "/absent"} {
 		for _, fl := range []int{-1, 0, 0x101000} {
@@ -340,11 +388,11 @@ func c07Random(r *corr.Rand, tier string) []corr.Case {
 		n = 20000
 	}
 	h := corr.HexS
-	names := []string{"/d", "/d/file", "/d/sub", "/d/sub/x", "/top", "/absent", "/d/new", "//d/./file", "/d/sub/../file"}
+	names := []string{"/d", "/d/file", "/d/sub", "/d/sub/x", "/top", "/absent", "/d/new", "//d/./file", "/d/sub/../file", "/../d/file", "/d/file/"}
 	var cases []corr.Case
 	for i := 0; i < n; i++ {
 		rr := r.Fork()
-		st := corr.Pick(rr, []string{"ro-mem", "ro-mem", "ro-os", "ro-bp", "ro-ro"})
+		st := corr.Pick(rr, []string{"ro-mem", "ro-mem", "ro-os", "ro-bp", "ro-ro", "ro-spy"})
 		l := append([]string{"case " + st}, c07Setup()...)
 		if rr.Chance(30) {
 			l = append([]string{"case " + st}, c07SetupOpen()...)
@@ -359,7 +407,7 @@ func c07Random(r *corr.Rand, tier string) []corr.Case {
 			case q < 30:
 				l = append(l, "open "+h(p))
 			case q < 38:
-				l = append(l, "stat "+h(p))
+				l = append(l, corr.Pick(rr, []string{"stat ", "lstat "})+h(p))
 			case q < 60:
 				m := corr.Pick(rr, []string{"create %s", "mkdir %s 493", "mkdirall %s 493", "remove %s", "removeall %s", "chmod %s 384", "chown %s 1 1", "chtimes %s 5"})
 				l = append(l, fmt.Sprintf(m, h(p)))
@@ -395,7 +443,7 @@ func C07() *corr.Engine {
 				if (t[0] == "openfile" || t[0] == "open") && strings.HasPrefix(impl[i], "h=") {
 					opened = true
 				}
-				if opened && (t[0] == "h.write" || t[0] == "h.writestring" || t[0] == "h.writeat" || t[0] == "h.trunc") {
+				if opened && (t[0] == "h.write" || t[0] == "h.writestring" || t[0] == "h.readfrom" || t[0] == "h.writeat" || t[0] == "h.trunc") {
 					return true
 				}
 			}
